@@ -82,7 +82,7 @@ def _size_lit(draw, v):
 
 
 @st.composite
-def atom(draw, sizes, names, exts, mtimes, uids):
+def atom(draw, sizes, names, exts, mtimes, uids, notnum=False):
     kind = draw(st.sampled_from(["num", "num", "num", "between", "text", "text", "text", "bool", "bool", "date",
                                  "date", "colcol", "reserved"]))
     if kind in ("num", "between"):
@@ -109,6 +109,9 @@ def atom(draw, sizes, names, exts, mtimes, uids):
         op = draw(st.sampled_from(draw(st.sampled_from(NUM_OPS))))
         if op in UNDOC_OPS:
             op = CANON[op]
+        if notnum and draw(st.sampled_from(range(12))) == 0:
+            # a literal that is no number at all on a numeric column
+            return {"kind": "num", "col": col, "op": op, "lit": draw(st.sampled_from(["'root'", "'abc'", "'many'", "0x10", "'1_000'"])), "v": 0, "notnum": True}
         if draw(st.sampled_from(range(5))) == 0:
             # a literal with a fractional part and no unit, between two attribute values: `size > 2.5`, `uid <= 999.5`
             frac = draw(st.sampled_from([".5", ".25", ".75", ".5", ".0"]))
@@ -213,7 +216,7 @@ def atom(draw, sizes, names, exts, mtimes, uids):
 def strategy_(draw, tier):
     spec = trees.attr_tree(draw)
     vals = _spec_values(spec)
-    atoms = [draw(atom(*vals)) for _ in range(12)]
+    atoms = [draw(atom(*vals, notnum=True)) for _ in range(12)]
     return {"tree": spec, "atoms": atoms}
 
 
@@ -291,7 +294,11 @@ def holds(e, a, base):
     k = a["kind"]
     if k == "num":
         x = num_value(e, a["col"], base)
-        return None if x is None else num_cmp(a["op"], x, a["v"])
+        if x is None:
+            # the entry has no value in this column (line_count of a directory): no number is below -1 or equal to 2
+            # (links and special files: whether the count is taken through them is not asserted)
+            return (CANON.get(a["op"], a["op"]) in ("!=", "!==")) if e.kind == "d" else None
+        return num_cmp(a["op"], x, a["v"])
     if k == "between":
         x = num_value(e, a["col"], base)
         return None if x is None else (a["v"] <= x <= a["v2"])
@@ -349,6 +356,15 @@ def check(case):
             out.evals += 1
             if res.wall_timeout:
                 out.inconclusive = True
+                continue
+            if a.get("notnum"):
+                # a literal that is no number at all on a numeric column (`uid = 'root'`) is a mistake in the query:
+                # it is reported at the first entry it is compared with, and nothing is listed
+                want_status = 2 if ents else 0
+                if res.sig is not None or res.status != want_status or res.out.strip() or (ents and not res.err.strip()):
+                    out.add("C02/notnum/%s/%s" % (a["col"], CANON.get(a["op"], a["op"])), query=q, status=res.status,
+                            signal=res.sig, stdout=res.out[:200], stderr=res.err[:300])
+                out.classes.append("kind=notnum")
                 continue
             if res.status != 0 or res.sig is not None:
                 out.add("C02/status/%s/%s" % (a["kind"], a["col"]), query=q, status=res.status, signal=res.sig, stderr=res.err[:300])
